@@ -77,6 +77,7 @@ TRecvClosed == Ev("RecvClosed") /\ pc = "Exited" /\ outq = <<>> /\ Stutter
 TRecvNone == Ev("RecvNone") /\ pc # "Exited" /\ outq = <<>> /\ Stutter
 TScribble == Ev("Scribble") /\ Stutter
 TDeadline == Ev("Deadline") /\ Stutter
+TRejected == Ev("Rejected") /\ Stutter   \* the constructor refused the options: nothing ran
 TRelease ==
   /\ Ev("Release") /\ Keep
   /\ IF Log[l + 1].ok THEN Release ELSE pc \notin {"RelWait", "FwdRel"} /\ UNCHANGED vars
@@ -89,7 +90,7 @@ TFinish ==
 Silent == ~skip /\ l > 0 /\ l <= Len(Log) /\ (Disc \/ TickFire) /\ UNCHANGED <<l, skip, seen, bufId, pmem>>
 
 TInit == InitWith(Dummy) /\ l = 0 /\ skip = TRUE /\ seen = {} /\ bufId = 0 /\ pmem = <<>>
-TNext == TReset \/ TSkip \/ TWrite \/ TClose \/ TRecv \/ TRecvClosed \/ TRecvNone \/ TScribble \/ TDeadline \/ TRelease
+TNext == TReset \/ TSkip \/ TWrite \/ TClose \/ TRecv \/ TRecvClosed \/ TRecvNone \/ TScribble \/ TDeadline \/ TRejected \/ TRelease
          \/ TAdv \/ TFinish \/ Silent
 TSpec == TInit /\ [][TNext]_tvars
 
